@@ -1,3 +1,4 @@
+mod errtab;
 mod ops;
 mod seccomp;
 mod sup;
